@@ -12,6 +12,9 @@ func TestProp_Hard(t *testing.T) { PartHard.Run(t) }
 func TestProp_Nano(t *testing.T) { PartNano.Run(t) }
 func TestProp_Mono(t *testing.T) { PartMono.Run(t) }
 
+// TestProp_Multi: several generators alive at once, called alternately.
+func TestProp_Multi(t *testing.T) { PartMulti.Run(t) }
+
 // TestProp_SharedPlain: the concurrent part judged by the oracle alone (plain binary).
 func TestProp_SharedPlain(t *testing.T) { PartSharedPlain.Run(t) }
 
@@ -26,6 +29,7 @@ func TestReplay(t *testing.T) {
 	PartHardEdges.Replay(t, 1)
 	PartNano.Replay(t, 1)
 	PartMono.Replay(t, 5)
+	PartMulti.Replay(t, 1)
 	PartRace.Replay(t, 20)
 	PartSharedPlain.Replay(t, 20)
 }
